@@ -10,6 +10,9 @@
 (*   pointwise :  S = W'(e(u_t))                                                                            *)
 (*   gonzalez  :  S = s_mid + alpha_g De,  alpha_g = (DW - s_mid De) / De^2  (0 when De^2 <= 1e-10)          *)
 (*   quadrature:  S = sum_k w_k W'(e0 + s_k De)   (Clenshaw-Curtis, 1 / 2 / 3 / 4 points)                        *)
+(*   quadA     :  the same rule refined per element along 1, 3, 5, 9, .. points until the energy defect is     *)
+(*                within the tolerance: for the polynomial laws (W' at most quadratic) the accepted rule is     *)
+(*                exact, stress and tangent are those of the 3-point rule                                      *)
 (*   R = A (1 + g_t) S                  internal force on the unknown                                        *)
 (* and, for midpoint, the velocities (v0, v1) for which (u0, v0) -> (u1, v1) is exactly one step:            *)
 (*   v0 = Du/dt + R dt / (2 m),  v1 = Du/dt - R dt / (2 m),   m = rho A L / 3.                                *)
@@ -68,7 +71,7 @@ Stress(law, opt, sch, u0, u1d) ==
                IN  IF Leq(Sq(de[1]), Eps0) THEN sm ELSE DAdd(sm, DMul(DDiv(n, DSq(de)), de))
           [] opt = "quad1" -> dWd(law, DAdd(e0, DMul(DC(Half), de)))
           [] opt = "quad2" -> DMul(DC(Half), DAdd(dWd(law, e0), dWd(law, e1)))
-          [] opt = "quad3" -> DAdd(DMul(DC(R(1, 6)), DAdd(dWd(law, e0), dWd(law, e1))), DMul(DC(R(2, 3)), dWd(law, DAdd(e0, DMul(DC(Half), de)))))
+          [] opt \in {"quad3", "quadA"} -> DAdd(DMul(DC(R(1, 6)), DAdd(dWd(law, e0), dWd(law, e1))), DMul(DC(R(2, 3)), dWd(law, DAdd(e0, DMul(DC(Half), de)))))
           [] opt = "quad4" -> DAdd(DMul(DC(R(1, 18)), DAdd(dWd(law, e0), dWd(law, e1))),                         \* Clenshaw-Curtis on 4 points: s = 0, 1/4, 3/4, 1
                                    DMul(DC(R(4, 9)), DAdd(dWd(law, DAdd(e0, DMul(DC(R(1, 4)), de))), dWd(law, DAdd(e0, DMul(DC(R(3, 4)), de))))))
 
@@ -98,10 +101,10 @@ DocTangent(law, opt, sch, u0, u1) ==
                    al == Mul(n, inv)
                    gg == Sub(Mul(inv, Sub(Sub(Mul(b1, s1), Mul3(Half, bt, Mul(cm, de))), Mul(b1, sm))), Mul3(Mul3(n, inv, inv), Two, Mul(b1, de)))
                IN  Mul(Vol, Add(Add(Mul3(bt, cm, bt), geo), Mul(Two, Add(Mul3(al, bt, b1), Mul3(bt, de, gg)))))
-          [] opt \in {"quad1", "quad2", "quad3", "quad4"} ->
+          [] opt \in {"quad1", "quad2", "quad3", "quad4", "quadA"} ->
                LET pts == CASE opt = "quad1" -> << <<Half, One>> >>
                             [] opt = "quad2" -> << <<Zero, Half>>, <<One, Half>> >>
-                            [] opt = "quad3" -> << <<Zero, R(1, 6)>>, <<Half, R(2, 3)>>, <<One, R(1, 6)>> >>
+                            [] opt \in {"quad3", "quadA"} -> << <<Zero, R(1, 6)>>, <<Half, R(2, 3)>>, <<One, R(1, 6)>> >>
                             [] opt = "quad4" -> << <<Zero, R(1, 18)>>, <<R(1, 4), R(4, 9)>>, <<R(3, 4), R(4, 9)>>, <<One, R(1, 18)>> >>
                    cq == SumSeq([k \in 1..Len(pts) |-> Mul3(Div(Mul(pts[k][2], pts[k][1]), ck), One, d2W(law, Add(e0, Mul(pts[k][1], de))))])
                IN  Mul(Vol, Add(Mul3(bt, cq, b1), geo))
@@ -109,7 +112,7 @@ DocTangent(law, opt, sch, u0, u1) ==
 (* ---- states ---- *)
 Admissible(law, opt, sch) ==
     /\ (opt = "gonzalez" => sch = "midpoint")
-    /\ (opt \in {"quad1", "quad2", "quad3", "quad4"} => Polynomial(law))
+    /\ (opt \in {"quad1", "quad2", "quad3", "quad4", "quadA"} => Polynomial(law))
 Steps == { [law |-> l, opt |-> o, sch |-> s, u0 |-> a, u1 |-> b, dt |-> d] :
            l \in Laws, o \in Options, s \in Schemes, a \in U0s, b \in U1s, d \in Dts }
 Init == step \in { s \in Steps : Admissible(s.law, s.opt, s.sch) }
@@ -126,7 +129,7 @@ V1(s) == Sub(Div(Du(s), s.dt), Div(Mul(V(Res(s)), s.dt), Mul(Two, Mass)))
 TangentIsDerivative == Mul(CoefK(step.sch), DocTangent(step.law, step.opt, step.sch, step.u0, step.u1)) = Res(step)[2]
 (* discrete gradient: the work of the internal force over the step is the change of stored energy *)
 Exact(s) == \/ s.opt = "gonzalez"
-            \/ (s.opt \in {"quad3", "quad4"} /\ s.sch = "midpoint")
+            \/ (s.opt \in {"quad3", "quad4", "quadA"} /\ s.sch = "midpoint")
             \/ (s.opt \in {"quad1", "quad2"} /\ s.sch = "midpoint" /\ s.law = "svk")
             \/ (Claim = "pointwise-conserves" /\ s.opt = "pointwise" /\ s.sch = "midpoint")
 DiscreteGradient == Exact(step) => Mul(V(Res(step)), Du(step)) = DWtot(step)
